@@ -35,6 +35,7 @@ func init() {
 
 const prelude = `E := Int.bear({r: m{("c" + .S).p; return nil if ((self % 10) <=> 2) == 0; raise ValueErr.new("bad" + .S) if ((self % 10) <=> 3) == 0; self + 100}, comb: m{|e| ("c" + e.S).p; return nil if ((e % 10) <=> 2) == 0; raise ValueErr.new("bad" + e.S) if ((e % 10) <=> 3) == 0; self + e}})
 EM := Int.bear({_missing: m{|name, e| return E['r](self) if name == 'r; return E['comb](self, e) if name == 'comb; raise NoPropErr.new("no " + name.S)}})
+ES := Int.bear({r: m{("c" + .S).p; return nil if ((self % 10) <=> 2) == 0; raise StopIterErr.new("bad" + .S) if ((self % 10) <=> 3) == 0; self + 100}, comb: m{|e| ("c" + e.S).p; return nil if ((e % 10) <=> 2) == 0; raise StopIterErr.new("bad" + e.S) if ((e % 10) <=> 3) == 0; self + e}})
 fr := {|e| e.r}
 fc := {|acc, e| acc.comb(e)}
 `
@@ -132,6 +133,30 @@ func genFixed(emit func(tcase)) {
 	for _, add := range adds {
 		emit(tcase{Kind: "fixed", Main: "@", Add: add, Form: "literal", Src: epre + "es" + add + "@{|x| x + 2}", Want: ewant})
 		emit(tcase{Kind: "fixed", Main: "@", Add: add, Form: "variable", Src: epre + "es" + add + "@^inc", Want: ewant})
+	}
+	// a chain argument written as a literal with computed parts (expansions, variables) inside a function that is called
+	// several times: the container / initial value is built anew from the current operands on every evaluation
+	for _, add := range []string{"", "&", "="} {
+		for _, fc := range []struct{ form, def, want string }{
+			{"literal", "f := {|b| [['x, 1]]" + add + "@({**b}){|p| p}}\n[f({a: 1}), f({c: 2}), f({a: 1})]", `[{"a": 1, "x": 1}, {"c": 2, "x": 1}, {"a": 1, "x": 1}]`},
+			{"variable", "idp := {|p| p}\nf := {|b| [['x, 1]]" + add + "@({k: 0, **b})^idp}\n[f({a: 1}), f({c: 2}), f({})]", `[{"a": 1, "k": 0, "x": 1}, {"c": 2, "k": 0, "x": 1}, {"k": 0, "x": 1}]`},
+			{"property", "f := {|b| [['x, 1]]" + add + "@({**b})A}\n[f({a: 1}), f({c: 2}), f({a: 1})]", `[{"a": 1, "x": 1}, {"c": 2, "x": 1}, {"a": 1, "x": 1}]`},
+			{"literal", "g := {|m| [[5, 6]]" + add + "@(%{**m}){|p| p}}\n[g(%{1: 2}), g(%{3: 4}), g(%{})]", `[%{1: 2, 5: 6}, %{3: 4, 5: 6}, %{5: 6}]`},
+			{"literal", "g := {|m| [[5, 6]]" + add + "@(%{'z: 0, **m}){|p| p}}\n[g(%{1: 2}), g(%{3: 4})]", `[%{"z": 0, 1: 2, 5: 6}, %{"z": 0, 3: 4, 5: 6}]`},
+			{"literal", "a := {|l| [1]" + add + "@([*l]){|x| x}}\n[a([7]), a([8, 9]), a([])]", "[[7, 1], [8, 9, 1], [1]]"},
+			{"literal", "a := {|l, v| [1]" + add + "@([v, *l]){|x| x}}\n[a([7], 0), a([8, 9], 5)]", "[[0, 7, 1], [5, 8, 9, 1]]"},
+		} {
+			emit(tcase{Kind: "fixed", Main: "@", Add: add, Form: fc.form, Src: fc.def, Want: fc.want})
+		}
+		for _, fc := range []struct{ form, def, want string }{
+			{"literal", "h := {|b| [1]" + add + "$({**b}){|acc, x| acc}}\n[h({a: 1}), h({c: 2})]", `[{"a": 1}, {"c": 2}]`},
+			{"literal", "h := {|l| [1, 2]" + add + "$([*l]){|acc, x| acc + [x]}}\n[h([7]), h([8, 9]), h([7])]", "[[7, 1, 2], [8, 9, 1, 2], [7, 1, 2]]"},
+			{"variable", "app := {|acc, x| acc + [x]}\nh := {|l| [1, 2]" + add + "$([0, *l])^app}\n[h([7]), h([8, 9])]", "[[0, 7, 1, 2], [0, 8, 9, 1, 2]]"},
+			{"property", "h := {|l| [[1], [2]]" + add + "$([*l])+}\n[h([7]), h([8, 9])]", "[[7, 1, 2], [8, 9, 1, 2]]"},
+			{"literal", "h := {|n| [1, 2]" + add + "$(n){|acc, x| acc + x}}\n[h(10), h(20), h(10)]", "[13, 23, 13]"},
+		} {
+			emit(tcase{Kind: "fixed", Main: "$", Add: add, Form: fc.form, Src: fc.def, Want: fc.want})
+		}
 	}
 	emit(tcase{Kind: "fixed", Main: "$", Form: "variable", Src: epre + "add := {|acc, e| acc + [e.val]}\nes$([])^add", Want: "[1, nil, 3]"})
 	emit(tcase{Kind: "fixed", Main: "$", Form: "literal", Src: epre + "es$([]){|acc, e| acc + [e.val]}", Want: "[1, nil, 3]"})
@@ -552,6 +577,17 @@ func gen(thorough bool, emit func(tcase)) {
 			}
 		}
 	})
+	// the same contexts over elements whose failing call raises StopIterErr (the kind that ends an iteration): a callee's
+	// error is the chain's error, whatever its kind
+	genCls("", maxN-1, func(t tcase) {
+		for _, e := range t.Elems {
+			if e%10 == 3 {
+				t.Cls = "ES"
+				emit(t)
+				return
+			}
+		}
+	})
 	// the same contexts with the chain written on a new line (multi-line chain spelling)
 	genCls("", maxN-2, func(t tcase) {
 		t.ML = true
@@ -765,7 +801,9 @@ func keyOf(t tcase, want outcome, o panrun.Obs) string {
 	case hasRaise:
 		sub = "/raise"
 	}
-	if t.Cls != "" {
+	if t.Cls == "ES" {
+		sub += "/callee-raises-StopIterErr"
+	} else if t.Cls != "" {
 		sub += "/via-_missing"
 	}
 	if t.ML {
@@ -810,6 +848,9 @@ func judge(c *core.Ctx, t tcase, o panrun.Obs) {
 		}
 	default:
 		want = model(t)
+		if t.Cls == "ES" && want.errK == "ValueErr" {
+			want.errK = "StopIterErr" // the elements' own failure is of the kind the interpreter uses to end an iteration
+		}
 	}
 	c.Outcome(t.Kind + ":" + o.Kind)
 	ok := true
